@@ -40,12 +40,13 @@ def run(ctx):
                      "socket outcomes per call: full, 1 byte, all but 1 byte, EAGAIN, fatal",
                      "interleaving granularity: the sending-flag read, the sender's lock blocks, select and "
                      "the direct socket write (everything else is under the lock or thread-private)",
-                     "closing a connection that still has deferred data is outside the property's fault set and is not driven"]
+                     "closing a connection that still has deferred data is outside the property's fault set and is not driven",
+                     "switch side: shutdown() = flush what is queued, then SHUT_WR exactly once, after which the scripted socket refuses data"]
   mc(ctx, "MCSendPath", "MC_AB2.cfg", ACTS)
   mc(ctx, "MCSendPath", "MC_A3.cfg", ACTS)
   if not quick:
     mc(ctx, "MCSendPath", "MC_AB3.cfg", ACTS)
-  mc(ctx, "Worker", "MC_W.cfg", ["Send", "SendFast", "DoSend"])
+  mc(ctx, "Worker", "MC_W.cfg", ["Send", "SendFast", "DoSend", "Shutdown"])
   # spec -> code
   r = tlc.run("sendpath", "MCSendPath", "EX_AB2.cfg", workers=1, coverage=False, tag="C20")
   behs = r.tagged("T")
